@@ -69,9 +69,7 @@ def check_C18(ctx, unit, nbits):
         if ext is None:
             raise AnalysisBroken("anchor vanished: bitset::buffer")
         masks = [f for f in fns if f.name == "mask_last_bit"]
-        if not masks:
-            raise AnalysisBroken("anchor vanished: bitset::mask_last_bit")
-        mask_did = {m.did for m in masks}
+        mask_did = {m.did for m in masks}       # may be empty: the masking statement can be spelled out in place
         last_word = nbits // 64
         mask_val = (1 << (nbits % 64)) - 1
 
